@@ -112,3 +112,40 @@ def describe(case):
             "n_respondents": len(survey), "weighted": case["weighted"],
             "missing_flags": [v.cat_missing for v in vars_], "min_base": case.get("min_base"),
             "first_respondents": case["survey"][:3]}
+
+
+# ---------------------------------------------------------------------------------------
+# transforms helpers
+
+
+def element_keys(v):
+    """keys under which the library addresses the VALID elements of the (first) apparent
+    dimension of a variable in transforms (shimmed form for arrays / datetime)."""
+    if v.is_array:
+        return [it["alias"] for it in v.items]
+    if v.kind == "datetime":
+        return ["20%02d-01-01T00:00:00" % (i + 1) for i, c in enumerate(v.cats) if not c["missing"]]
+    return [c["id"] for c in v.cats if not c["missing"]]
+
+
+def valid_ids(v):
+    return [c["id"] for c in v.cats if not c["missing"]]
+
+
+def gen_insertions(rng, v, max_n=2, allow_diff=False, allow_hide=True):
+    """valid subtotal dicts on a categorical-like variable (ids of valid categories)."""
+    ids = valid_ids(v)
+    if v.is_array or v.kind in ("datetime", "text", "binned") or not ids:
+        return []
+    out = []
+    for n in range(rng.randint(0, max_n)):
+        k = rng.randint(1, min(3, len(ids)))
+        args = rng.sample(ids, k)
+        anchor = rng.choice(["top", "bottom"] + ids)
+        d = {"function": "subtotal", "args": args, "anchor": anchor, "name": "S%d" % n, "id": n + 1}
+        if allow_diff and rng.random() < 0.3 and len(ids) > 1:
+            d["kwargs"] = {"negative": rng.sample(ids, rng.randint(1, min(2, len(ids))))}
+        if allow_hide and rng.random() < 0.15:
+            d["hide"] = True
+        out.append(d)
+    return out
